@@ -47,19 +47,28 @@ theorem deposit_spec (P : Params) (certs : List CertD) (ip : Bool)
       simp only [explicitOf, refundOf, List.filterMap_cons, List.map_cons, List.sum_cons, List.length_cons, specDeposit, if_true, if_false,
         Bool.false_eq_true, Int.natCast_add, Int.natCast_one, Int.mul_add, Int.mul_one, Int.mul_zero] at ih ⊢ <;> omega
 
-/-- the hypotheses under which the accounting is exact: operands are legal dicts, the selected inputs (plus mint)
-cover what is requested in every asset and nothing is burned that the inputs do not hold (established by the
-pre-selection phase of `build`, which refuses otherwise), and the packing loop's size `break` is not taken -/
+/-- the hypotheses under which the accounting is exact: operands are legal dicts, and the packing loop's size `break`
+is not taken.  That the selected inputs (plus mint) cover what is requested in every asset, and that nothing is burned
+that the inputs do not hold, is no longer a hypothesis: `_calc_change` returns a result only behind its guard
+`requested < provided`, and `<=` on values is the component-wise order for all operands (`Pyc.C05.le_iff`, after the
+repair of KF-C05-le-negative) — `calcChange_covers` below.  (While `<=` was key-directed the guard let a burn of an
+asset the inputs do not hold through, and the field `cover` was needed.) -/
 structure Hyp (P : Params) (a : ChangeArgs) : Prop where
   wf : ArgsWF a
-  cover : ∀ p n, MultiAsset.qty (requested a).ma p n ≤ MultiAsset.qty (provided a).ma p n
   noBreak : (packTokens P a.addr (changeValue a)).2 = false
+
+/-- whenever `_calc_change` returns change outputs, what is requested (outputs + fee) is covered by what is provided
+(inputs + mint + withdrawals − deposits), in ADA and in every asset — for all arguments, no hypothesis -/
+theorem calcChange_covers (P : Params) (a : ChangeArgs) (cs : List Output) (h : calcChange P a = .ok cs) :
+    (requested a).coin ≤ (provided a).coin ∧
+    ∀ p n, MultiAsset.qty (requested a).ma p n ≤ MultiAsset.qty (provided a).ma p n :=
+  Builder.calcChange_covered P a cs h
 
 /-- change = provided − requested, in ADA and in every asset -/
 theorem calcChange_sum (P : Params) (a : ChangeArgs) (cs : List Output) (h : calcChange P a = .ok cs) (hy : Hyp P a) :
     sumCoin cs = (provided a).coin - (requested a).coin ∧
     ∀ p n, sumAsset cs p n = MultiAsset.qty (provided a).ma p n - MultiAsset.qty (requested a).ma p n :=
-  Builder.calcChange_sum P a cs h hy.wf hy.cover hy.noBreak
+  Builder.calcChange_sum P a cs h hy.wf hy.noBreak
 
 /-- token packing preserves the bundle: nothing lost, nothing duplicated -/
 theorem pack_preserves (P : Params) (addr : Bytes) (ch : Value) (hw : MultiAsset.WF ch.ma)
@@ -135,6 +144,7 @@ example : (match finalOutputs exP exOuts exArgs false with | .ok fo => fo.length
 end Pyc.C06
 
 #print axioms Pyc.C06.deposit_spec
+#print axioms Pyc.C06.calcChange_covers
 #print axioms Pyc.C06.calcChange_sum
 #print axioms Pyc.C06.pack_preserves
 #print axioms Pyc.C06.dedup_of_nodup
